@@ -157,9 +157,11 @@ def build(P, attrs, name="top", is_async=False, mc=2, built=None, _counter=None)
                 g = PLAIN[fname]
 
                 def swrapper(*a, **kw):
+                    if PRE_HOOK is not None:
+                        PRE_HOOK()
                     return g(*a, **kw)
                 swrapper.__qualname__ = swrapper.__name__ = f"{name}_{fname}_setup"
-                fns[("s", fname)] = xn(swrapper, setup=True)
+                fns[("s", fname)] = xn(swrapper, setup=True, **attrs(f"{name}_{fname}_setup"))
             return fns[("s", fname)]
         if fname not in fns:
             f = PLAIN[fname]
